@@ -280,11 +280,6 @@ def run(tier, seed):
             m = re.search(r'"ev":"(\w+)"', ln)
             kinds[m.group(1)] = kinds.get(m.group(1), 0) + 1
     vlib.log("[gossip] events by kind: %s" % kinds)
-    if summ["changed"] * 8 < summ["steps"] or summ["ok"] * 10 < summ["delivered"]:
-        raise vlib.ToolError("driver is not exercising the graph: %s" % summ)
-    for need in ("deliver", "failc", "failn", "prune", "reload", "rgs", "resolve"):
-        if kinds.get(need, 0) < 20:
-            raise vlib.ToolError("vacuity: only %d `%s` events in the trace" % (kinds.get(need, 0), need))
 
     # ---- 3. trace validation (the oracle)
     total, fails = vlib.validate_trace(PID, "GossipTrace", "GossipTrace.cfg", tpath, timeout=2400)
@@ -308,6 +303,15 @@ def run(tier, seed):
                                  "GossipTrace.tla  (the first event the spec cannot match is first_unmatched_event)"},
                 key=key):
             nviol += 1
+
+    # vacuity guards -- only when nothing was found (a change to the code under test must not turn a verdict
+    # into a tool error)
+    if nviol == 0:
+        if summ["changed"] * 8 < summ["steps"] or summ["ok"] * 10 < summ["delivered"]:
+            raise vlib.ToolError("driver is not exercising the graph: %s" % summ)
+        for need in ("deliver", "failc", "failn", "prune", "reload", "rgs", "resolve"):
+            if kinds.get(need, 0) < 20:
+                raise vlib.ToolError("vacuity: only %d `%s` events in the trace" % (kinds.get(need, 0), need))
 
     # ---- 4. binding self-test on a slice of the accepted trace (random part: all event kinds)
     st = None
